@@ -30,6 +30,9 @@ ASSUMPTIONS = ["faults at the restoring operations themselves (chdir back, remov
 
 
 SNAP_ROOT = [None]
+# the directory the calls are made from: a name with a backslash (a separator elsewhere, an ordinary character here), a
+# blank and a non-ASCII letter; a directory "wo/r kö" exists beside it
+WORK = "wo\\r k\u00f6"
 # names a call is documented to write: <step>.<keyid8>.link, .<step>.<keyid8>.link-unfinished, <inspection>.link
 OUTPUT_NAME = __import__("re").compile(r"^\.?[^/]*\.link(-unfinished)?$")
 
@@ -39,7 +42,7 @@ def snapshot():
     files = []
     root = SNAP_ROOT[0]
     if root:
-        for sub in ("work", "base"):
+        for sub in (WORK, "base", "wo"):
             for base, dirs, names in os.walk(os.path.join(root, sub)):
                 for n in dirs + names:
                     files.append(os.path.relpath(os.path.join(base, n), root))
@@ -54,7 +57,8 @@ def setup_tree(root):
     for p, c in (("base/x", "x\n"), ("base/sub/y", "y\n"), ("base/z", "z\n")):
         with open(os.path.join(root, p), "w") as f:
             f.write(c)
-    os.makedirs(os.path.join(root, "work"))
+    os.makedirs(os.path.join(root, WORK))
+    os.makedirs(os.path.join(root, WORK.replace("\\", "/")), exist_ok=True)
     os.makedirs(os.path.join(root, "tmp"))
     # a minimal OSTree-style repository
     commit = "ab" * 32
@@ -108,12 +112,12 @@ def make_calls(root):
     calls["run/collision_products"] = lambda: rl.in_toto_run("st4", ["."], ["x", "sub/y"], [sys.executable, "-c", "pass"], base_path=base,
                                                             signer=k.signer, lstrip_paths=["x", "sub/y"])
     calls["run/base_setting"] = with_setting(lambda: rl.in_toto_run("st5", ["."], ["."], [sys.executable, "-c", "pass"], signer=k.signer,
-                                                                    metadata_directory=os.path.join(root, "work")))
+                                                                    metadata_directory=os.path.join(root, WORK)))
     calls["run/timeout"] = lambda: rl.in_toto_run("st6", ["."], ["."], [sys.executable, "-c", "import time; time.sleep(20)"],
                                                   record_streams=True, base_path=base, signer=k.signer, timeout=1)
     cmd_ok = [sys.executable, "-c", "print('out'); import sys; print('err', file=sys.stderr)"]
     calls["run/streams"] = lambda: rl.in_toto_run("st", ["."], ["."], cmd_ok, record_streams=True, base_path=base, signer=k.signer,
-                                                  metadata_directory=os.path.join(root, "work"))
+                                                  metadata_directory=os.path.join(root, WORK))
     calls["run/no_streams"] = lambda: rl.in_toto_run("st", ["."], ["."], cmd_ok, base_path=base, signer=k.signer)
     calls["run/failing_command"] = lambda: rl.in_toto_run("st", ["."], ["."], [sys.executable, "-c", "raise SystemExit(3)"],
                                                           record_streams=True, base_path=base, signer=k.signer)
@@ -187,8 +191,8 @@ def run_once(name, root, fault_at=None):
     (raised class or None, before, after, trace)."""
     import in_toto.settings as st
     logging.getLogger("in_toto").setLevel(logging.CRITICAL)
-    for f in os.listdir(os.path.join(root, "work")):
-        os.remove(os.path.join(root, "work", f))
+    for f in os.listdir(os.path.join(root, WORK)):
+        os.remove(os.path.join(root, WORK, f))
     for f in os.listdir(os.path.join(root, "tmp")):
         p = os.path.join(root, "tmp", f)
         shutil.rmtree(p, ignore_errors=True) if os.path.isdir(p) else os.remove(p)
@@ -197,7 +201,7 @@ def run_once(name, root, fault_at=None):
     cwd0 = os.getcwd()
     old_tmp = tempfile.tempdir
     tempfile.tempdir = os.path.join(root, "tmp")
-    os.chdir(os.path.join(root, "work"))
+    os.chdir(os.path.join(root, WORK))
     call = make_calls(root)[name]
     raised = None
     try:
